@@ -116,3 +116,11 @@ package decoder
 
 //@ func isDigit
 //@   pure
+
+// jsonCutLen (json_max_fields_size): the kept prefix of the escaped string is
+// within the string and within the limit; every index is in range.
+
+//@ func jsonCutLen
+//@   pure
+//@   ensures 0 <= result && result <= len(s) && (limit >= 0 ==> result <= limit) && (limit < 0 ==> result == 0)
+//@   loop 1 invariant 0 <= i && i <= len(s) && (limit >= 0 ==> i <= limit) && (limit < 0 ==> i == 0)
